@@ -27,4 +27,12 @@ CHECKS = {
         "require_classes": ["load:Null", "load:ShorterThanHeader", "load:MissingPadding", "load:MagicNotFound", "load:ChecksumMismatch", "load:Ok", "sweep:block"],
         "assumptions": ["the architecture word holds a defined value (0 or 4) as the property requires", "the header region is as large as it declares"],
     },
+    "C13": {
+        "bin": "c13",
+        "cfgs": {"quick": ["dD", "rD"], "thorough": ["dD", "rD", "rN"]},
+        "technique": MC,
+        "rule": "one leaf per (buffer length, first-magic position or none, stored length word, second-magic variant); states are distinct buffer images (hash of bytes and length); every leaf is non-trivial (each sits on a boundary of the window / alignment / truncation tests)",
+        "require_classes": ["find:none", "find:error", "find:found"],
+        "assumptions": ["buffers start 8-aligned (precondition of the property)"],
+    },
 }
